@@ -376,6 +376,8 @@ class Run:
                                        preempt_prefix=self.world.outdir if self.sc.get("preempt_p") else None,
                                        preempt_p=float(self.sc.get("preempt_p") or 0.0))
 
+        locks = sched.cooperative_locks(self.world.outdir)
+        locks.__enter__()
         # clients are built BEFORE the threads start (in this thread, in scenario order): the threads share them, and
         # the harness's own bookkeeping is never touched by two threads
         built = {}
@@ -415,6 +417,7 @@ class Run:
             sched.run([body(i, a) for i, a in enumerate(self.sc["actors"])], [a.get("start", 0.0) for a in self.sc["actors"]])
             self.sim.ev("threads_done", switches=sched.switches, preemptions=sched.preemptions)
         finally:
+            locks.__exit__()
             if kind == "rest":
                 simhttp.uninstall()
 
